@@ -188,7 +188,7 @@ def fault_cases():
     """real design faults caught by checking passes, and a generator body raising once"""
     return [("fault", k) for k in ("width", "missing-port", "orphan", "generator-once", "generator-nested", "generator-bad-params", "late-fault-shared-children")] + \
         [("fault", f"repair-child-ports/{how}") for how in ("add-port", "remove-port", "widen-port")] + \
-        [("fault", f"persistent/{f}/depth{d}") for f in ("width", "missing-port", "array-missing-port", "anon-width", "unnamed")
+        [("fault", f"persistent/{f}/depth{d}") for f in ("width", "missing-port", "array-missing-port", "anon-width", "unnamed", "self-instance", "circular")
          for d in (0, 1, 2)]
 
 
@@ -276,8 +276,36 @@ def check_fault(case, ref, builders):
             bad.arr = 2 * Leaf(a=bad.x4)
         elif fault == "anon-width":
             bad.c = CB(q=h.AnonymousBundle(x=bad.y, y=bad.y))
+        elif fault == "self-instance":
+            # found while the hierarchy is being walked: nothing is recorded on the module, every repeat finds it anew
+            bad.i = Leaf(a=bad.x, b=bad.y)
+            bad.me = bad()
+        elif fault == "circular":
+            other = h.Module(name="PersOther")
+            other.back = bad()
+            bad.i = Leaf(a=bad.x, b=bad.y)
+            bad.o = other()
         else:
             bad.i = Leaf(a=bad.x, b=bad.y)
+
+        def another_failure(k):
+            """an unrelated faulty design, caught by the same checking pass (or, for k odd, also found during the walk)"""
+            o = h.Module(name=f"PersUnrelated{k}")
+            o.x, o.y = h.Signal(width=2), h.Signal()
+            o.good = Leaf(a=o.x, b=o.y)
+            if k % 2:
+                o.me = o()
+            elif fault == "missing-port":
+                o.i = Leaf(a=o.x)
+            else:
+                o.i = Leaf(a=o.y, b=o.y)
+            oo = h.Module(name=f"PersUnrelatedUp{k}")
+            oo.inner = o()
+            try:
+                h.to_proto(oo)
+            except Exception:
+                return
+            raise AssertionError("the unrelated faulty design was accepted")
         top = bad
         for k in range(depth):
             up = h.Module(name=f"PersUp{k}")
@@ -293,6 +321,8 @@ def check_fault(case, ref, builders):
                 got = (type(e).__name__, str(e))
             else:
                 return (f"fault.persistent.accepted", f"{kind}: attempt {attempt + 1} of the same export returned a package", {"case": repr(case)})
+            if attempt >= 2:
+                another_failure(attempt)      # other designs fail in between: the repeat still reports ITS error
             if first is None:
                 first = got
             elif got != first:
